@@ -167,6 +167,13 @@ SPECS = {
         ("timoshenko_shear_sign_3d", ELBEAM, "            B_e_pg[:, :, 5, idx_ry] += Nu_pg  # +ry", "            B_e_pg[:, :, 5, idx_ry] -= Nu_pg  # +ry"),
     ],
     "C11": [
+        ("plane_stress_uses_C", LAWS, "                c = np.linalg.inv(s)\n\n            else:", "                c = global_cM[x, :][:, x] if len(shape) == 2 else np.linalg.inv(s)\n\n            else:"),
+        ("iso_lambda_plane_stress", LAWS, "            lmbda = E * v / (1 - v**2)\n", "            lmbda = E * v / (1 - v)\n"),
+        ("ortho_c13", LAWS, "        return -E1 * E2 * E3 * (v12 * v23 + v13) / self.__get_cij_denominator()", "        return -E1 * E2 * E3 * (v12 * v13 + v23) / self.__get_cij_denominator()"),
+        ("trans_Gt_formula", LAWS, "        Gt = Et / (2 * (1 + vt))\n", "        Gt = Et / (2 * (1 + self.vl))\n"),
+        ("param_set_without_update", R + "Utilities/_params.py", "        if isinstance(instance, Updatable):\n            instance.Need_Update()", "        if isinstance(instance, Updatable) and not isinstance(value, float):\n            instance.Need_Update()"),
+        ("apply_pmat_toLocal_same_as_global", MUT, '        i1 = "ji"\n        id2 = "kl"', '        i1 = "ij"\n        id2 = "kl"'),
+        ("aniso_2d_embedding_index", LAWS, "        idx = np.array([0, 1, 5])\n        if dim == 2:", "        idx = np.array([0, 1, 3])\n        if dim == 2:"),
         ("pmat_2d_B_entry", MUT, "        B = np.array([[p11 * p12, p21 * p22]])", "        B = np.array([[p11 * p12, p21 * p12]])"),
     ],
 }
